@@ -110,7 +110,7 @@ func c20HK(key []byte) []byte {
 type c20AudOp struct {
 	Designate []int // environment step (not part of the trace): new NeoFSAlphabet designation
 	Raw       []byte
-	Signers   []int // reporter indices signing the transaction
+	Signers   []int // reporter indices signing the transaction; -1 = a stranger, -2 = the Alphabet (committee) account
 }
 
 type c20AudHistory struct {
@@ -210,7 +210,7 @@ func (o c20AudOp) String() string {
 	if o.Designate != nil {
 		return fmt.Sprintf("[designate NeoFSAlphabet := reporters %v]", o.Designate)
 	}
-	return fmt.Sprintf("audit.put(raw=%s, signers=reporters %v)", Hex(o.Raw), o.Signers)
+	return fmt.Sprintf("audit.put(raw=%s, signers=reporters %v (-1 stranger, -2 Alphabet account))", Hex(o.Raw), o.Signers)
 }
 
 func c20RunAudit(run *c20Run, p *c20Pool, hs c20AudHistory, corpus bool) string {
@@ -232,6 +232,8 @@ func c20RunAudit(run *c20Run, p *c20Pool, hs c20AudHistory, corpus bool) string 
 		p.Atom(pubs[i])
 		p.Atom(hks[i])
 	}
+	audStranger := c20Signer("stranger", 0)
+	fund = append(fund, audStranger)
 	c20Fund(v, fund...)
 	for _, cid := range hs.Cids {
 		p.Atom(cid)
@@ -259,8 +261,16 @@ func c20RunAudit(run *c20Run, p *c20Pool, hs c20AudHistory, corpus bool) string 
 		var sg []neotest.Signer
 		var wit [][]byte
 		for _, i := range op.Signers {
-			sg = append(sg, reps[i])
-			wit = append(wit, pubs[i])
+			switch {
+			case i == -2: // the Alphabet multi-signature account: witnesses no single key
+				sg = append(sg, v.E.Committee)
+			case i < 0:
+				sg = append(sg, audStranger)
+				wit = append(wit, c20Pub(audStranger))
+			default:
+				sg = append(sg, reps[i])
+				wit = append(wit, pubs[i])
+			}
 		}
 		hdr, parsed := c20AudParse(op.Raw)
 		var hk, key []byte
@@ -411,6 +421,12 @@ func c20AuditCorpus() []c20AudHistory {
 			Ops: []c20AudOp{put(E(1), c20CidA, 0, 1), des(0), put(E(1), c20CidA, 0, 2), put(E(1), c20CidA, 1, 3), put(E(1), c20CidA, 0, 4, 1),
 				put(E(1), c20CidB, 0, 5, 1, 0), put(E(1), c20CidA, 0, 6), des(1, 2), put(E(1), c20CidA, 0, 7), put(E(257), c20CidA, 1, 8),
 				put(E(257), c20CidB, 2, 9, 0, 2), put(E(0), c20CidB, 2, 10, 0)}},
+		// the reporter named in the result must itself witness: the Alphabet account alone, another Inner
+		// Ring member alone, a stranger, or any of them together do not count
+		{Name: "signer-sets", Epochs: []*big.Int{E(1), E(2), E(0)}, Cids: [][]byte{c20CidA, c20CidB},
+			Ops: []c20AudOp{des(0, 1), put(E(1), c20CidA, 0, 1, -2), put(E(1), c20CidA, 0, 2, 1), put(E(1), c20CidA, 0, 3, -2, 1), put(E(1), c20CidA, 0, 4, -1),
+				put(E(1), c20CidA, 0, 5), put(E(1), c20CidA, 0, 6, -2), put(E(1), c20CidA, 0, 7, 1, -1), put(E(2), c20CidB, 1, 8, 0), put(E(2), c20CidB, 1, 9, -2, 1),
+				put(E(2), c20CidB, 2, 10, -2), put(E(2), c20CidB, 2, 11, 2, -2), put(E(2), c20CidB, 0, 12, -1, 0)}},
 		{Name: "malformed", Crafted: true, Epochs: []*big.Int{E(256), E(0), E(65792)}, Cids: [][]byte{c20CidA, {}},
 			Ops: []c20AudOp{des(0, 1, 2), {Raw: nil, Signers: []int{0}}, {Raw: []byte{0x0A}, Signers: []int{0}}, trunc(2), trunc(10), trunc(15), trunc(19),
 				trunc(30), trunc(51), trunc(53), trunc(85), trunc(len(good) - 2), trunc(len(good)),
@@ -469,13 +485,19 @@ func c20AuditRandom(r *rand.Rand, i int) c20AudHistory {
 		}
 		raw := c20AudRaw(ver, hs.Epochs[r.Intn(len(hs.Epochs))], cid, c20Pub(c20Signer("reporter", from)), []byte{0x28, byte(r.Intn(3))})
 		op := c20AudOp{Raw: raw, Signers: []int{from}}
-		switch r.Intn(10) {
+		switch r.Intn(14) {
 		case 0:
 			op.Signers = []int{(from + 1) % c20NReporters}
 		case 1:
 			op.Signers = []int{(from + 1) % c20NReporters, from}
 		case 2:
 			op.Raw = raw[:r.Intn(len(raw))]
+		case 3:
+			op.Signers = []int{-2}
+		case 4:
+			op.Signers = []int{-2, (from + 1) % c20NReporters}
+		case 5:
+			op.Signers = [][]int{{-1}, {-2, from}, {-1, from}, {-2, -1}}[r.Intn(4)]
 		}
 		hs.Ops = append(hs.Ops, op)
 	}
@@ -513,14 +535,16 @@ type c20EstOp struct {
 	Cid     int      // put: index into the history's cid pool; delete: container index
 	Size    *big.Int // put
 	Pub     int      // put: node whose key is passed; addpeer/offline: node
-	Signers []int    // put: node indices signing (-1 = the stranger account)
+	Signers []int    // put: node indices signing; -1 = the stranger account, -2 = the Alphabet account, -3 = the committee-majority account
 	Alpha   bool     // tick
+	Maj     bool     // tick: signed by the committee-majority account alone (differs from the Alphabet's on a 7-key chain)
 	N       *big.Int // tick
 	Step    int64    // nmtick: netmap.newEpoch(cur+Step)
 }
 
 type c20EstHistory struct {
 	Name   string
+	NCmt   int // committee size of the chain (0/1: one key)
 	Epochs []*big.Int
 	NConts int  // containers created at the start (1..3)
 	Ghost  bool // the cid pool also contains an id that never existed
@@ -541,30 +565,35 @@ type c20EstEnv struct {
 	nodes                      []neotest.SingleSigner
 	pubs, h20s, infos          [][]byte
 	stranger                   neotest.SingleSigner
+	auth                       c20Auth
 	conts                      [][]byte // container blobs
 	cids                       [][]byte
 	cur                        int64
 }
 
-func c20NewEstEnv(run *c20Run, nconts int) *c20EstEnv {
+func c20NewEstEnv(run *c20Run, nconts int, ncmt ...int) *c20EstEnv {
 	t := run.t
-	v := NewEnv(t)
+	nc := 0
+	if len(ncmt) > 0 {
+		nc = ncmt[0]
+	}
+	v, auth := c20Chain(t, nc)
 	e := v.E
-	x := &c20EstEnv{Env: v}
+	x := &c20EstEnv{Env: v, auth: auth}
 	nns := v.Compile("nns")
-	e.DeployContract(t, nns, []any{[]any{[]any{"neofs", "ops@nspcc.io"}}})
+	c20Deploy(v, auth, nns, []any{[]any{[]any{"neofs", "ops@nspcc.io"}}})
 	reg := func(name string, h util.Uint160) {
 		inv := e.CommitteeInvoker(nns.Hash)
 		inv.Invoke(t, true, "register", name+".neofs", e.CommitteeHash, "ops@nspcc.ru", int64(3600), int64(600), int64(10*365*24*3600*1000), int64(3600))
 		inv.Invoke(t, nil, "addRecord", name+".neofs", 16, h.StringLE())
 	}
 	nm, bal, ctr := v.Compile("netmap"), v.Compile("balance"), v.Compile("container")
-	e.DeployContract(t, nm, []any{false, util.Uint160{}, util.Uint160{}, []any{},
+	c20Deploy(v, auth, nm, []any{false, util.Uint160{}, util.Uint160{}, []any{},
 		[]any{containerconst.RegistrationFeeKey, int64(c20ContainerFee), containerconst.AliasFeeKey, int64(c20ContainerFee / 2)}})
 	reg("netmap", nm.Hash)
-	e.DeployContract(t, bal, []any{false, nm.Hash, ctr.Hash})
+	c20Deploy(v, auth, bal, []any{false, nm.Hash, ctr.Hash})
 	reg("balance", bal.Hash)
-	e.DeployContract(t, ctr, []any{int64(0), nm.Hash, bal.Hash, util.Uint160{}, nns.Hash, nil})
+	c20Deploy(v, auth, ctr, []any{int64(0), nm.Hash, bal.Hash, util.Uint160{}, nns.Hash, nil})
 	reg("container", ctr.Hash)
 	x.netmap, x.balance, x.container = nm.Hash, bal.Hash, ctr.Hash
 
@@ -587,9 +616,9 @@ func c20NewEstEnv(run *c20Run, nconts int) *c20EstEnv {
 		val := c20Bytes(fmt.Sprintf("container-%d", i), 100)
 		val[1] = 0
 		copy(val[6:], c20Cat([]byte{0x35}, owner.ScriptHash().BytesBE(), []byte{1, 2, 3, 4}))
-		r := v.Invoke([]neotest.Signer{e.Committee}, bal.Hash, "mint", owner.ScriptHash(), int64(c20ContainerFee), []byte{})
+		r := v.Invoke([]neotest.Signer{auth.alpha}, bal.Hash, "mint", owner.ScriptHash(), int64(c20ContainerFee)*int64(max(nc, 1)), []byte{}) // the fee is charged once per Alphabet node
 		require.True(t, r.Halt, r.Fault)
-		r = v.Invoke([]neotest.Signer{e.Committee}, ctr.Hash, "put", val, c20Bytes("csig", 64), c20Bytes("cpub", 33), c20Bytes("ctoken", 42))
+		r = v.Invoke([]neotest.Signer{auth.alpha}, ctr.Hash, "put", val, c20Bytes("csig", 64), c20Bytes("cpub", 33), c20Bytes("ctoken", 42))
 		require.True(t, r.Halt, r.Fault)
 		id := sha256.Sum256(val)
 		x.conts = append(x.conts, val)
@@ -669,9 +698,9 @@ func (m *c20EstMon) estStr(node int, size *big.Int) string {
 func (o c20EstOp) String() string {
 	switch o.Kind {
 	case "put":
-		return fmt.Sprintf("container.putContainerSize(epoch=%s, cid#%d, size=%s, key=node %d; signers=nodes %v)", o.E, o.Cid, o.Size, o.Pub, o.Signers)
+		return fmt.Sprintf("container.putContainerSize(epoch=%s, cid#%d, size=%s, key=node %d; signers=nodes %v (-1 stranger, -2 Alphabet account, -3 committee-majority account))", o.E, o.Cid, o.Size, o.Pub, o.Signers)
 	case "tick":
-		return fmt.Sprintf("container.newEpoch(%s) alpha=%v", o.N, o.Alpha)
+		return fmt.Sprintf("container.newEpoch(%s) alpha=%v majority-only=%v", o.N, o.Alpha, o.Maj)
 	case "nmtick":
 		return fmt.Sprintf("netmap.newEpoch(cur+%d)", o.Step)
 	case "addpeer":
@@ -686,7 +715,7 @@ func (o c20EstOp) String() string {
 
 func c20RunEst(run *c20Run, p *c20Pool, hs c20EstHistory, corpus bool) string {
 	t := run.t
-	x := c20NewEstEnv(run, hs.NConts)
+	x := c20NewEstEnv(run, hs.NConts, hs.NCmt)
 	v := x.Env
 	d1, d2 := int64(containerconst.CleanupDelta), int64(containerconst.TotalCleanupDelta)
 	pool := append([][]byte{}, x.cids...)
@@ -713,41 +742,45 @@ func c20RunEst(run *c20Run, p *c20Pool, hs c20EstHistory, corpus bool) string {
 		var r Result
 		switch op.Kind {
 		case "addpeer":
-			r = v.Invoke([]neotest.Signer{v.E.Committee, x.nodes[op.Pub]}, x.netmap, "addPeer", x.infos[op.Pub])
+			r = v.Invoke([]neotest.Signer{x.auth.alpha, x.nodes[op.Pub]}, x.netmap, "addPeer", x.infos[op.Pub])
 			require.True(t, r.Halt, r.Fault)
 			h.ops = append(h.ops, op.String())
 			continue
 		case "offline":
-			r = v.Invoke([]neotest.Signer{v.E.Committee, x.nodes[op.Pub]}, x.netmap, "updateState", int64(2), x.pubs[op.Pub])
+			r = v.Invoke([]neotest.Signer{x.auth.alpha, x.nodes[op.Pub]}, x.netmap, "updateState", int64(2), x.pubs[op.Pub])
 			require.True(t, r.Halt, r.Fault)
 			h.ops = append(h.ops, op.String())
 			continue
 		case "delete":
-			r = v.Invoke([]neotest.Signer{v.E.Committee}, x.container, "delete", x.cids[op.Cid], c20Bytes("csig", 64), c20Bytes("ctoken", 42))
+			r = v.Invoke([]neotest.Signer{x.auth.alpha}, x.container, "delete", x.cids[op.Cid], c20Bytes("csig", 64), c20Bytes("ctoken", 42))
 			require.True(t, r.Halt, r.Fault)
 			delete(m.liveSet, string(x.cids[op.Cid]))
 			h.ops = append(h.ops, op.String())
 			continue
 		case "nmtick":
 			n := x.cur + op.Step
-			r = v.Invoke([]neotest.Signer{v.E.Committee}, x.netmap, "newEpoch", n)
+			r = v.Invoke([]neotest.Signer{x.auth.alpha}, x.netmap, "newEpoch", n)
 			require.True(t, r.Halt, "netmap.newEpoch(%d): %s", n, r.Fault)
 			x.cur = n
 			h.op("tick", fmt.Sprintf("netmap.newEpoch(%d) -> container.newEpoch(%d)", n, n), true, false)
 			m.tick(big.NewInt(n), d2)
 			coqOp = fmt.Sprintf("ETick true %s", ZI(n))
 		case "tick":
-			sg := []neotest.Signer{v.E.Committee}
+			sg := []neotest.Signer{x.auth.alpha}
 			if !op.Alpha {
 				sg = []neotest.Signer{x.stranger}
+				if op.Maj { // the committee-majority account is not the Alphabet account (when they differ)
+					sg = []neotest.Signer{x.auth.major}
+					op.Alpha = !x.auth.differ
+				}
 			}
 			r = v.Invoke(sg, x.container, "newEpoch", op.N)
 			h.op("tick", op.String(), r.Halt, false)
 			switch {
 			case r.Halt && !op.Alpha:
-				h.violate("container.newEpoch accepted without the committee witness")
+				h.violate("container.newEpoch accepted without the Alphabet witness")
 			case !r.Halt && op.Alpha:
-				h.violate("container.newEpoch by the committee refused: " + r.Fault)
+				h.violate("container.newEpoch by the Alphabet refused: " + r.Fault)
 			}
 			if r.Halt {
 				m.tick(op.N, d2)
@@ -765,14 +798,32 @@ func c20RunEst(run *c20Run, p *c20Pool, hs c20EstHistory, corpus bool) string {
 			}
 			var sg []neotest.Signer
 			var wit [][]byte
+			// only single keys witness a key; the Alphabet / committee-majority
+			// multi-signature accounts witness no node key
 			for _, i := range op.Signers {
-				if i < 0 {
+				switch {
+				case i == -2:
+					sg = append(sg, x.auth.alpha)
+				case i == -3:
+					sg = append(sg, x.auth.major)
+				case i < 0:
 					sg = append(sg, x.stranger)
 					wit = append(wit, c20Pub(x.stranger))
-				} else {
+				default:
 					sg = append(sg, x.nodes[i])
 					wit = append(wit, x.pubs[i])
 				}
+			}
+			if !x.auth.differ { // one account: do not sign twice
+				seen := map[util.Uint160]bool{}
+				var sg2 []neotest.Signer
+				for _, y := range sg {
+					if !seen[y.ScriptHash()] {
+						seen[y.ScriptHash()] = true
+						sg2 = append(sg2, y)
+					}
+				}
+				sg = sg2
 			}
 			cid, pub := pool[op.Cid], x.pubs[op.Pub]
 			r = v.Invoke(sg, x.container, "putContainerSize", op.E, cid, op.Size, pub)
@@ -1028,6 +1079,17 @@ func c20EstCorpus() []c20EstHistory {
 		{Name: "membership-changes", Epochs: []*big.Int{E(1), E(257), E(5), E(0)}, NConts: 1,
 			Ops: []c20EstOp{add(0), nm(), put(E(5), 0, 1, 0), nm(), put(E(5), 0, 2, 0), add(2), put(E(5), 0, 3, 2), nm(), put(E(5), 0, 4, 2), off(0), nm(), put(E(5), 0, 5, 2),
 				put(E(257), 0, 6, 0), nm(), put(E(257), 0, 7, 0), put(E(257), 0, 8, 2), nmBy(3), put(E(1), 0, 9, 2), nm()}},
+		// who may report: only the node itself (alone or with anyone else); the Alphabet account, the
+		// committee-majority account, another node of the map, a stranger — alone or together — may not,
+		// for keys inside (0, 1) and outside (2) the previous epoch's network map
+		{Name: "signer-sets", Epochs: []*big.Int{E(2), E(1), E(0)}, NConts: 2,
+			Ops: []c20EstOp{add(0), add(1), nm(), nm(), put(E(2), 0, 1, 0), put(E(2), 0, 2, 1, -2), put(E(2), 0, 3, 0, -2), put(E(2), 0, 4, 0, 1), put(E(2), 0, 5, 0, -1),
+				put(E(2), 0, 6, 0, -2, 1), put(E(2), 0, 7, 0, -3), put(E(2), 0, 8, 0, -3, 1), put(E(2), 1, 9, 1, -2), put(E(2), 1, 10, 2, -2), put(E(2), 1, 11, 2, 2),
+				put(E(2), 1, 12, 2, -2, 2), put(E(2), 0, 13, 0, -2, 0), put(E(2), 0, 14, 0, 1, 0), put(E(1), 0, 15, 1, -2, -1, 0), put(E(1), 0, 16, 1, -1, 1)}},
+		{Name: "signer-sets-7", NCmt: c20BigCommittee, Epochs: []*big.Int{E(2), E(1), E(0)}, NConts: 1,
+			Ops: []c20EstOp{add(0), add(1), nm(), nm(), put(E(2), 0, 1, 0), put(E(2), 0, 2, 1, -2), put(E(2), 0, 3, 0, -2), put(E(2), 0, 4, 0, -3), put(E(2), 0, 5, 0, -3, 1),
+				put(E(2), 0, 6, 0, -2, -3), put(E(2), 0, 7, 1, -3, 1), put(E(2), 0, 8, 2, -2), put(E(1), 0, 9, 0, -2, 0),
+				{Kind: "tick", Maj: true, N: E(100)}, tick(E(2 + d2)), {Kind: "tick", Maj: true, N: E(100)}, badTick(E(100)), tick(E(3 + d2))}},
 		// ticks of the real Netmap contract (container subscribed) that jump over
 		// several epochs: cleanup must be relative to the TICK's epoch
 		{Name: "netmap-jump-total-delta", Epochs: []*big.Int{E(1), E(2), E(3), E(0)}, NConts: 2,
@@ -1047,6 +1109,9 @@ func c20EstCorpus() []c20EstHistory {
 
 func c20EstRandom(r *rand.Rand, i int) c20EstHistory {
 	hs := c20EstHistory{Name: fmt.Sprintf("random-%d", i), NConts: 2 + r.Intn(2), Ghost: r.Intn(4) == 0}
+	if i%10 == 7 {
+		hs.NCmt = c20BigCommittee
+	}
 	hs.Epochs = c20SubPool(r, 4)
 	d1, d2 := int64(containerconst.CleanupDelta), int64(containerconst.TotalCleanupDelta)
 	ncid := hs.NConts
@@ -1115,13 +1180,21 @@ func c20EstRandom(r *rand.Rand, i int) c20EstHistory {
 			default:
 				op.Size = big.NewInt(int64(k + 1))
 			}
-			switch r.Intn(12) {
+			switch r.Intn(18) {
 			case 0:
 				op.Signers = []int{(node + 1) % c20NNodes}
 			case 1:
 				op.Signers = []int{-1}
 			case 2:
 				op.Signers = []int{(node + 1) % c20NNodes, node}
+			case 3:
+				op.Signers = []int{-2}
+			case 4:
+				op.Signers = []int{-2, (node + 1) % c20NNodes}
+			case 5:
+				op.Signers = []int{-3}
+			case 6:
+				op.Signers = [][]int{{-2, node}, {-3, (node + 1) % c20NNodes}, {-2, -1}, {-1, node}}[r.Intn(4)]
 			}
 			lastE = op.E
 			hs.Ops = append(hs.Ops, op)
@@ -1132,7 +1205,11 @@ func c20EstRandom(r *rand.Rand, i int) c20EstHistory {
 			} else {
 				nn = hs.Epochs[r.Intn(len(hs.Epochs))]
 			}
-			hs.Ops = append(hs.Ops, c20EstOp{Kind: "tick", Alpha: r.Intn(5) != 0, N: nn})
+			tk := c20EstOp{Kind: "tick", Alpha: r.Intn(5) != 0, N: nn}
+			if !tk.Alpha && r.Intn(2) == 0 {
+				tk.Maj = hs.NCmt > 1
+			}
+			hs.Ops = append(hs.Ops, tk)
 		case x < 17:
 			if jumpy {
 				nmJump()
@@ -1190,10 +1267,10 @@ func c20CapacityProbe(run *c20Run) {
 	t0 := time.Now()
 	x := c20NewEstEnv(run, 1)
 	v := x.Env
-	r := v.Invoke([]neotest.Signer{v.E.Committee, x.nodes[0]}, x.netmap, "addPeer", x.infos[0])
+	r := v.Invoke([]neotest.Signer{x.auth.alpha, x.nodes[0]}, x.netmap, "addPeer", x.infos[0])
 	require.True(t, r.Halt, r.Fault)
 	for n := int64(1); n <= 2; n++ {
-		r = v.Invoke([]neotest.Signer{v.E.Committee}, x.netmap, "newEpoch", n)
+		r = v.Invoke([]neotest.Signer{x.auth.alpha}, x.netmap, "newEpoch", n)
 		require.True(t, r.Halt, r.Fault)
 	}
 	accepted, fault := 0, ""
